@@ -106,6 +106,8 @@ struct World {
     pk: PublicKey,
     class: u64,
     events: Vec<String>,
+    /// the requests put on the network by the last requester step, in sending order
+    last_sent: Vec<RepairRequestType>,
 }
 
 fn make_node(pk: &PublicKey) -> (
@@ -251,6 +253,7 @@ impl World {
     }
     fn step_line(&mut self, panicked: bool) -> String {
         let sent: Vec<RepairRequest> = std::mem::take(&mut *self.req_sent.lock().unwrap());
+        self.last_sent = sent.iter().map(|r| r.verif_req_type().clone()).collect();
         let evs = self.drain_events();
         if panicked {
             return "panic".into();
@@ -499,6 +502,7 @@ fn main() {
         pk,
         class: 0,
         events: vec![],
+        last_sent: vec![],
     };
     let rounds = if args.thorough { 40 } else { 16 };
     let max_n = if args.thorough { 5 } else { 3 };
@@ -540,11 +544,21 @@ fn main() {
             let mut history: Vec<(String, RepairResponse)> = vec![];
             let mut budget = 40 + 200 * n;
             let mut stored_at_some_point = false;
+            let mut reissued = 0;
             while budget > 0 {
                 budget -= 1;
                 let out = w.outstanding();
                 if out.is_empty() {
                     break;
+                }
+                // the pool asks again for the block while its repair is in flight (duplicate repair requests are normal):
+                // the LastSliceRoot request is re-issued in a state in which slice roots of the block are already proven,
+                // and the hostile peer answers it like the first one
+                if hostile_level > 0 && reissued < 2 && rng.chance(1, 30) && !out.iter().any(|r| matches!(r, RepairRequestType::LastSliceRoot(_))) {
+                    reissued += 1;
+                    w.rec.count("reissued-while-in-flight");
+                    w.repair_block(slot, blk.hid, &blk.hash);
+                    continue;
                 }
                 let non_shred: Vec<&RepairRequestType> = out.iter().filter(|r| !matches!(r, RepairRequestType::Shred(..))).collect();
                 let req = if !non_shred.is_empty() && rng.chance(2, 3) { non_shred[rng.below(non_shred.len() as u64) as usize].clone() } else { out[rng.below(out.len() as u64) as usize].clone() };
@@ -666,6 +680,10 @@ fn main() {
                     if name != "unsolicited" && name != "replay" {
                         let rs = w.req_str(&req);
                         w.rec.oracle(still, "hostile-response-cancels-request", || format!("after `{op}` ({name}) the request {rs} is no longer outstanding (had {before} outstanding)"));
+                        if name == "last-too-small" || name == "last-aliased" {
+                            let nsent = w.last_sent.len();
+                            w.rec.oracle(still && nsent == 0, "repair-last-slice-misreported", || format!("`{op}` ({name}; {reissued} re-issued repair requests before) was accepted as the last slice of a {n}-slice block: request {rs} still outstanding: {still}, {nsent} follow-up requests sent"));
+                        }
                     }
                 } else if roll < 12 * hostile_level + 6 {
                     w.timeout();
@@ -778,6 +796,96 @@ fn main() {
                     format!("two blocks of slot {slot} under repair at once, every request answered correctly ({rerequested} duplicate repair requests): block {} was not completed; outstanding now {:?}", blk.hid, outs)
                 });
             }
+            let c = w.class;
+            w.rec.end_case(c, true);
+        }
+
+        // ================= re-issued LastSliceRoot request answered with an INNER slice whose root was proven before =================
+        // history: LastSliceRoot + SliceRoot responses handled (roots proven by check_proof_last / check_proof), block still
+        // incomplete, repair_block called again; a hostile peer answers LastSliceRoot(k < last, root_k, membership proof of k):
+        // root_k is a proven slice root, but proven by position only - it says nothing about last-ness (C15, second sentence)
+        {
+            let n = rng.range(2, max_n.max(2)) as usize;
+            let slot = rng.range(2, 30);
+            w.begin("repair-reissued-last-root");
+            let specs = honest_specs(&mut rng, n, slot, 1);
+            let built: Vec<Built> = specs.iter().map(|s| w.build(slot, s)).collect();
+            let blk = w.declare(slot, built);
+            let blocks = vec![blk.clone()];
+            let junk_hash = hash_from(&rng.bytes(32));
+            let bid: BlockId = (Slot::new(slot), blk.hash.clone());
+            w.repair_block(slot, blk.hid, &blk.hash);
+            // phase 1: an honest peer answers every root request and part of the shred requests: slice `hold` stays below
+            // 32 shreds (block incomplete), at most 40 shred requests of the last slice are answered
+            let hold = rng.below(n as u64) as usize;
+            let hold_served = rng.below(32) as usize;
+            let mut served = vec![0usize; n];
+            let mut guard = 0;
+            loop {
+                guard += 1;
+                let mut out = w.outstanding();
+                rng.shuffle(&mut out);
+                let req = out.into_iter().find(|r| match r {
+                    RepairRequestType::Shred(_, i, _) => { let i = si_usize(*i); served[i] < if i == hold { hold_served } else if i == n - 1 { 40 } else { TOTAL_SHREDS } }
+                    _ => true,
+                });
+                let Some(req) = req else { break };
+                if guard > 4000 { break; }
+                if let RepairRequestType::Shred(_, i, _) = &req { served[si_usize(*i)] += 1; }
+                let (op, resp) = correct_response(&w, &blk, &req);
+                if !w.respond(op, resp, "correct") { break; }
+            }
+            let stored_early = w.rt.block_on(async { w.store.read().await.get_block(&bid).is_some() });
+            // phase 2: the pool asks for the block again; the hostile peer names every inner slice as the last one
+            w.repair_block(slot, blk.hid, &blk.hash);
+            let lreq = RepairRequestType::LastSliceRoot(bid.clone());
+            let reissued = w.repair.verif_outstanding().contains(&lreq);
+            w.rec.oracle(reissued || stored_early, "repair-not-reissued", || format!("repair_block for an incomplete {n}-slice block (slice {hold} has {hold_served} shreds) whose roots are proven did not issue a LastSliceRoot request"));
+            let mut ks: Vec<usize> = (0..n - 1).collect();
+            rng.shuffle(&mut ks);
+            let mut claims: Vec<(usize, PRef)> = ks.iter().map(|&k| (k, PRef::P(blk.hid, k))).collect();
+            // ... and with proofs that prove nothing at all
+            let k = ks[0];
+            claims.push((k, PRef::PE));
+            claims.push((k, PRef::PJ(blk.hid, k, rng.below(blk.tree.height().max(1) as u64) as usize)));
+            claims.push((k, PRef::P(blk.hid, n - 1)));
+            if reissued {
+                for (k, pref) in claims {
+                    let (ps, p) = w.proof(&blocks, &pref, &junk_hash);
+                    let op = format!("resp last {} {k} {} {ps}", w.req_str(&lreq), blk.built[k].rid);
+                    let resp = RepairResponse::LastSliceRoot(lreq.clone(), slice_index(k), blk.built[k].root.clone(), p);
+                    if !w.respond(op.clone(), resp, "last-inner-slice-proven-root") { break; }
+                    let still = w.repair.verif_outstanding().contains(&lreq);
+                    let nsent = w.last_sent.len();
+                    w.rec.oracle(still, "hostile-response-cancels-request", || format!("after `{op}` (inner slice {k} of a {n}-slice block whose root was proven earlier by a membership proof, answered to a re-issued LastSliceRoot request) the request is no longer outstanding"));
+                    w.rec.oracle(still && nsent == 0, "repair-last-slice-misreported", || format!("`{op}`: slice {k} of a {n}-slice block accepted as the LAST slice on a re-issued LastSliceRoot request (its root was proven earlier, by position only): request still outstanding: {still}, {nsent} follow-up requests sent"));
+                }
+                // the recorded last slice did not change: a genuine shred of the real last slice is still what the requester accepts
+                let last_req = w.outstanding().into_iter().find(|r| matches!(r, RepairRequestType::Shred(_, i, _) if si_usize(*i) == n - 1));
+                if let Some(req) = last_req {
+                    let (op, resp) = correct_response(&w, &blk, &req);
+                    w.respond(op.clone(), resp, "correct");
+                    let gone = !w.repair.verif_outstanding().contains(&req);
+                    w.rec.oracle(gone, "repair-last-slice-misreported", || format!("after hostile LastSliceRoot answers naming inner slices of a {n}-slice block, the correct answer `{op}` (genuine shred of the real last slice {}) is no longer accepted", n - 1));
+                }
+            }
+            // phase 3: an honest peer answers everything that is outstanding
+            let mut guard = 0;
+            loop {
+                guard += 1;
+                let done = w.rt.block_on(async { w.store.read().await.get_block(&bid).is_some() });
+                let out = w.outstanding();
+                if done || out.is_empty() || guard > 3 * (n * TOTAL_SHREDS + n + 2) { break; }
+                let req = out[rng.below(out.len() as u64) as usize].clone();
+                let (op, resp) = correct_response(&w, &blk, &req);
+                if !w.respond(op, resp, "correct") { break; }
+            }
+            let res = w.q_blk(slot, blk.hid, &blk.hash);
+            let txs: Vec<u64> = specs.iter().flat_map(|s| s.txs.clone().unwrap()).collect();
+            let outs = w.outstanding().len();
+            w.rec.oracle(res.as_ref().is_some_and(|(h, _, ids)| *h == blk.hash && *ids == txs), "repair-derailed", || {
+                format!("{n}-slice block, roots proven, repair re-requested, hostile LastSliceRoot answers naming inner slices, then every outstanding request answered correctly: the block is not stored ({outs} requests outstanding)")
+            });
             let c = w.class;
             w.rec.end_case(c, true);
         }
@@ -1126,6 +1234,79 @@ fn main() {
             let c = w.class;
             w.rec.end_case(c, true);
         }
+    }
+    // ================= one large repair per run: > 1024 requests outstanding at once, answered in FIFO order =================
+    // a block of 17..20 slices and two small blocks (another slot / the same slot) repaired concurrently by one honest peer that
+    // answers the requests in the order they were sent: all LastSliceRoot, then all SliceRoot answers (each fans out into 64
+    // shred requests), then the shreds. Occasionally a NACK or a timeout (the re-sent request joins the end of the queue).
+    // Every request that is outstanding is eventually answered correctly, so every block must complete.
+    {
+        let na = 17 + rng.below(4) as usize;
+        let slot = rng.range(2, 30);
+        w.begin("repair-large-fifo");
+        let mut blks: Vec<(Blk, Vec<Spec>)> = vec![];
+        for (bn, bslot, base) in [(na, slot, 1u64), (rng.range(1, 4) as usize, slot, 5000), (rng.range(2, 5) as usize, slot + 1, 7000)] {
+            let specs = honest_specs(&mut rng, bn, bslot, base);
+            let built: Vec<Built> = specs.iter().map(|s| w.build(bslot, s)).collect();
+            blks.push((w.declare(bslot, built), specs));
+        }
+        let mut queue: std::collections::VecDeque<RepairRequestType> = Default::default();
+        for (b, _) in &blks {
+            let (bslot, hid, h) = (b.slot, b.hid, b.hash.clone());
+            w.repair_block(bslot, hid, &h);
+            queue.extend(w.last_sent.drain(..));
+        }
+        let mut peak = 0usize;
+        let mut answered = 0usize;
+        let mut disturbances = 0usize;
+        let limit = 6 * (blks.iter().map(|(b, _)| b.built.len()).sum::<usize>() * (TOTAL_SHREDS + 1) + 3);
+        while let Some(req) = queue.pop_front() {
+            if answered > limit { break; }
+            let outs = w.repair.verif_outstanding();
+            peak = peak.max(outs.len());
+            if !outs.contains(&req) { continue; } // answered meanwhile (a request sent twice)
+            let h = match &req { RepairRequestType::LastSliceRoot((_, h)) | RepairRequestType::SliceRoot((_, h), _) | RepairRequestType::Shred((_, h), _, _) => h.clone() };
+            let blk = &blks.iter().find(|(b, _)| b.hash == h).expect("request about one of the blocks").0;
+            let roll = rng.below(1000);
+            if roll < 6 {
+                disturbances += 1;
+                let op = format!("resp nack {}", w.req_str(&req));
+                if !w.respond(op, RepairResponse::Nack(req.clone()), "nack") { break; }
+            } else if roll < 10 {
+                disturbances += 1;
+                queue.push_front(req);
+                w.timeout();
+            } else {
+                answered += 1;
+                let (op, resp) = correct_response(&w, blk, &req);
+                if !w.respond(op, resp, "correct") { break; }
+            }
+            queue.extend(w.last_sent.drain(..));
+        }
+        // whatever is outstanding now (nothing, if the requester kept track of everything it needs) is answered as well
+        let mut guard = 0;
+        loop {
+            guard += 1;
+            let out = w.outstanding();
+            if out.is_empty() || guard > 3000 { break; }
+            let req = out[0].clone();
+            let h = match &req { RepairRequestType::LastSliceRoot((_, h)) | RepairRequestType::SliceRoot((_, h), _) | RepairRequestType::Shred((_, h), _, _) => h.clone() };
+            let blk = &blks.iter().find(|(b, _)| b.hash == h).expect("request about one of the blocks").0;
+            let (op, resp) = correct_response(&w, blk, &req);
+            if !w.respond(op, resp, "correct") { break; }
+        }
+        w.rec.count(&format!("large-fifo:peak-outstanding>1024:{}", peak > 1024));
+        for (blk, specs) in &blks {
+            let res = w.q_blk(blk.slot, blk.hid, &blk.hash);
+            let txs: Vec<u64> = specs.iter().flat_map(|s| s.txs.clone().unwrap()).collect();
+            let outs = w.repair.verif_outstanding().len();
+            let (nb, bslot, hid) = (blk.built.len(), blk.slot, blk.hid);
+            w.rec.oracle(res.as_ref().is_some_and(|(h, _, ids)| *h == blk.hash && *ids == txs), "repair-derailed", || {
+                format!("blocks of {:?} slices repaired concurrently, every request answered correctly in the order it was sent ({answered} answers, {disturbances} NACKs/timeouts, at most {peak} requests outstanding at once): block {hid} ({nb} slices, slot {bslot}) was not completed; {outs} requests outstanding at the end", blks.iter().map(|(b, _)| b.built.len()).collect::<Vec<_>>())
+            });
+        }
+        let c = w.class;
+        w.rec.end_case(c, true);
     }
     let extra = serde_json::json!({ "rounds": rounds, "max_slices": max_n });
     w.rec.finish(&args, extra);
